@@ -4,6 +4,8 @@
   float argument (random concrete value => the path only samples).  Here they
   stay symbolic: z3 ToInt on reals; fp.roundToIntegral + fp.to_real + ToInt on
   IEEE doubles.
+* int(x) on a symbolic float: likewise realised by stock CrossHair; routed to
+  the symbolic ``__int__`` (truncation toward zero).
 """
 
 from __future__ import annotations
@@ -42,6 +44,28 @@ def install():
 
     def r_trunc(v):
         return SymbolicInt(z3.If(v >= 0, z3.ToInt(v), -z3.ToInt(-v)))
+
+    # int(symbolic float): stock CrossHair realises the float; keep it symbolic (truncation)
+    from crosshair.libimpl.builtinslib import SymbolicFloat
+
+    stock_int = xc._PATCH_REGISTRATIONS[int]
+
+    from crosshair.core import deep_realize
+
+    def patched_int(*a, **k):
+        if len(a) == 1 and not k:
+            with NoTracing():
+                sym_float = isinstance(a[0], SymbolicFloat)
+                sym_int = isinstance(a[0], SymbolicInt)
+            if sym_float:
+                return a[0].__int__()
+            if sym_int:
+                return a[0]
+        with NoTracing():
+            # (symbolic strings etc.: realised, as stock CrossHair does for unsupported cases)
+            return int(*deep_realize(a), **deep_realize(k))
+
+    xc._PATCH_REGISTRATIONS[int] = patched_int
 
     mk("floor", r_floor, z3.RTN)
     mk("ceil", r_ceil, z3.RTP)
